@@ -1666,13 +1666,15 @@ package formula
 //@   ensures result1 == nil
 //@   ensures[C18] num(v) ==> result0 == dstr(nval(v))
 
-// toInt truncates toward zero (the library's Int64), exactly.
+// toInt truncates toward zero (rounding mode 2, ToZero), whatever the size of the number;
+// NaN and the infinities have no integer part and give 0.
 //@ func funToInt
 //@   tags [C18,C03]
 //@   requires wfv(v)
 //@   panics never
 //@   ensures result1 == nil && result0 != nil
-//@   ensures[C18] num(v) ==> fresh(result0) && result0.val == dvInt(d2i(nval(v)))
+//@   ensures[C18] num(v) && dfinite(nval(v)) ==> fresh(result0) && result0.val == droundIntM(nval(v), 2)
+//@   ensures num(v) && !dfinite(nval(v)) ==> fresh(result0) && result0.val == dzero()
 
 //@ func funToFloat
 //@   tags [C18,C03]
